@@ -254,3 +254,12 @@ Theorem T04f_delivered_entries_come_from_sources : forall (mf : bytes -> bytes -
   exists first rest, (forall x, In x (first :: rest) -> In (k, x) (remaining it)) /\ fold_merge mf k first rest = Some v.
 Proof. exact merger_after_failure_sound. Qed.
 Print Assumptions T04f_delivered_entries_come_from_sources.
+
+(* the call that follows a failed one is an ordinary call from a state `api` (T04_next_call applies to it): it sees the
+   cleared state, whose remaining entries are those the failed call left *)
+Theorem T04f_call_after_failure : forall (mf : bytes -> bytes -> bytes -> option bytes) it it', api it ->
+  merger_next (Some mf) None it = (it', None) -> remaining it <> [] ->
+  merger_next (Some mf) None it' = merger_next (Some mf) None (clear it') /\ api (clear it') /\
+  remaining (clear it') = remaining it'.
+Proof. exact merger_next_after_failure. Qed.
+Print Assumptions T04f_call_after_failure.
